@@ -4,7 +4,11 @@ from .c04 import TB_SSZ
 
 PROPS = {"C05": dict(
     module="Proofs.Properties.C05",
-    theorems=["Zrnt.Proofs.C05.mixInLength_def"],
+    theorems=["Zrnt.Proofs.C05.merkleize_eq_spec", "Zrnt.Proofs.C05.merkleize_pad_zero",
+              "Zrnt.Proofs.C05.mixInLength_inj", "Zrnt.Proofs.C05.htr_determined_by_bytes",
+              "Zrnt.Proofs.C05.htr_eq_spec", "Zrnt.Proofs.C05.htr_eq_spec_of_decode",
+              "Zrnt.Proofs.C05.setMany_valid", "Zrnt.Proofs.C05.tree_root_after_sets",
+              "Zrnt.Proofs.C05.tree_set_leaves"],
     modes=[dict(name="ssz"), dict(name="sszstate")],
     level="proof",
     trusted_base=TB_COMMON + TB_SSZ + [
